@@ -232,6 +232,47 @@ fn one<X: Sx, Y: Sx>(ctx: &Ctx, idx: u64, l: usize, hdr_class: usize, msg_class:
         s2[b / 8] ^= 1 << (b % 8);
         reject::<X>(ctx, &h, "sig-bitflip", format!("{b}"), &h.pk, &s2, &h.msgs, ho);
     }
+    // ---- ascending history on a NEW thread: smaller lists first, then this one, signed and verified there. State that is
+    // built up incrementally between calls (and extended wrongly) is in place on that thread only; the worker thread may
+    // already hold state from larger scenarios, which hides such faults.
+    if (2..=12).contains(&l) {
+        let accepted: Vec<String> = on_fresh_thread(|| {
+            let mut hits = vec![];
+            for pre in [1usize, l / 2, l - 1] {
+                if pre == 0 || pre >= l {
+                    continue;
+                }
+                if let Some(ps) = ctx.call("sign", "fresh-thread-history", None, || Sig::<X>::sign(Some(&h.msgs[..pre]), &h.sk, &h.pk, ho)).value {
+                    let _ = ctx.call("verify", "fresh-thread-history", None, || ps.verify(&h.pk, Some(&h.msgs[..pre]), ho));
+                }
+            }
+            let Some(sig) = ctx.call("sign", "fresh-thread-history", None, || Sig::<X>::sign(Some(&h.msgs), &h.sk, &h.pk, ho)).value else { return hits };
+            if !ctx.call("verify", "fresh-thread-history", None, || sig.verify(&h.pk, Some(&h.msgs), ho)).outcome.is_ok() || sig.to_bytes() != h.sig {
+                ctx.count("fresh_thread_history_differs(C01's business)", 1);
+            }
+            for i in 0..l {
+                for j in i + 1..l {
+                    if h.msgs[i] != h.msgs[j] {
+                        let mut m = h.msgs.clone();
+                        m.swap(i, j);
+                        if ctx.call("verify", "fresh-thread-history", None, || sig.verify(&h.pk, Some(&m), ho)).outcome.is_ok() {
+                            hits.push(format!("swapped {i}-{j}"));
+                        }
+                    }
+                }
+                let mut m = h.msgs.clone();
+                m[i].push(0x55);
+                if ctx.call("verify", "fresh-thread-history", None, || sig.verify(&h.pk, Some(&m), ho)).outcome.is_ok() {
+                    hits.push(format!("extended {i}"));
+                }
+            }
+            hits
+        });
+        for hit in accepted {
+            let kind = if hit.starts_with("swapped") { "msg-swapped" } else { "msg-extended" };
+            ctx.violation(&format!("C02:accepted/{}", kind), json!({"where":"fresh thread with ascending history","what":hit,"L":l,"suite":name::<X>()}));
+        }
+    }
     // ---- cross-suite: same key, same inputs, other suite's verifier
     {
         let case = format!("{}->{}/L{}/cross-suite", name::<X>(), name::<Y>(), l);
